@@ -308,6 +308,9 @@ class Interp:
                 raise Unanalysable(line, "kind->token table %s applied to %r" % (segs[0], kd))
             if segs[-1] == "remove_dollars" and len(args) == 1:
                 return V("dollarless", args[0])
+            if len(segs) == 1 and segs[0] in self.tf.fns and segs[0][:1].islower():
+                # a free helper function of the tokenizer file (e.g. a character predicate): evaluate its body
+                return self.call_method(segs[0], args, depth + 1, line)
             return self.variant(segs, args, line)
         if k == "Struct":
             fields = {f["member"]: self.expr(f["expr"], env, depth) for f in e["fields"]}
@@ -537,15 +540,34 @@ class Interp:
             for a in e["arms"]:
                 p = a["pat"]
                 if self.pat_matches_char(p, v.a[0], a["line"]):
-                    if a["guard"] is not None:
-                        g = self.expr(a["guard"], env, depth)
-                        if not self.truth(g, a["line"]):
-                            continue
                     env2 = dict(env)
                     if p["k"] == "PIdent":
-                        env2[p["name"]] = v
+                        env2[p["name"]] = v  # `c if c.is_whitespace() => ..`: the binding is visible in the guard
+                    if a["guard"] is not None:
+                        g = self.expr(a["guard"], env2, depth)
+                        if not self.truth(g, a["line"]):
+                            continue
                     return self.expr(a["body"], env2, depth)
             raise Unanalysable(e["line"], "non-exhaustive char match")
+        if isinstance(v, V) and v.t in ("some", "none"):
+            # match <option> { Some(x) => .., None => .. }
+            for a in e["arms"]:
+                p = a["pat"]
+                if a["guard"] is not None:
+                    raise Unanalysable(a["line"], "guard on an Option arm")
+                if p["k"] == "PTupleStruct" and p["path"]["segs"] == ["Some"] and len(p["elems"]) == 1:
+                    if v.t == "some":
+                        env2 = dict(env)
+                        self.bind(p["elems"][0], v.a[0], env2, a["line"])
+                        return self.expr(a["body"], env2, depth)
+                elif (p["k"] in ("PPath", "PIdent") and unparse(p).strip() == "None"):
+                    if v.t == "none":
+                        return self.expr(a["body"], env, depth)
+                elif p["k"] == "PWild":
+                    return self.expr(a["body"], env, depth)
+                else:
+                    raise Unanalysable(a["line"], "unsupported Option pattern %s" % unparse(p))
+            raise Unanalysable(e["line"], "non-exhaustive Option match")
         raise Unanalysable(e["line"], "unsupported match scrutinee %s" % unparse(scrut_e)[:60])
 
     def pat_matches_char(self, p, c, line):
